@@ -669,6 +669,26 @@ func checkByteExactCodecs(c *Ctx) {
 			}
 			n++
 			v := ret.Results[0]
+			// copies of the buffer are fine: bytes.Clone(x), append([]byte(nil), x...), x[:]
+			for d := 0; d < 4; d++ {
+				switch y := v.(type) {
+				case *ssa.Slice:
+					if y.Low == nil && y.High == nil {
+						v = y.X
+						continue
+					}
+				case *ssa.Call:
+					if _, ref := callRef(y); ref == "bytes.Clone" || ref == "slices.Clone" {
+						v = y.Call.Args[0]
+						continue
+					}
+					if b, isB := y.Call.Value.(*ssa.Builtin); isB && b.Name() == "append" && len(y.Call.Args) == 2 {
+						v = y.Call.Args[1]
+						continue
+					}
+				}
+				break
+			}
 			call, isCall := v.(*ssa.Call)
 			if !isCall {
 				continue
